@@ -149,7 +149,7 @@ func capPolygon(context *api.Context, center b6.Geometry, radius float64) (b6.Ar
 	if math.IsNaN(radius) || math.IsInf(radius, 0) || radius <= 0 {
 		return nil, fmt.Errorf("expected a radius greater than 0, found %f", radius)
 	}
-	if center.GeometryType() != b6.GeometryTypePoint {
+	if center == nil || center.GeometryType() != b6.GeometryTypePoint {
 		return nil, fmt.Errorf("expected a point as the center")
 	}
 	return b6.AreaFromS2Loop(s2.RegularLoop(center.Point(), b6.MetersToAngle(radius), 128)), nil
